@@ -219,7 +219,7 @@ func (e *Encoder) Encode(msg protoreflect.Message) (*jx.Value, error) {
 	if IsWrapper(md) {
 		return e.encodeOneof(msg, Props(md))
 	}
-	out := jx.O()
+	out := sem(jx.O(), "object:"+string(md.FullName()))
 	for _, p := range Props(md) {
 		if p.Exposed != nil {
 			holder := msg
@@ -242,7 +242,7 @@ func (e *Encoder) Encode(msg protoreflect.Message) (*jx.Value, error) {
 			if err != nil {
 				return nil, err
 			}
-			out.Members = append(out.Members, jx.Member{Key: p.Name, Val: jx.O(jx.Member{Key: "!type", Val: jx.S(set.JSONName())}, jx.Member{Key: set.JSONName(), Val: val})})
+			out.Members = append(out.Members, jx.Member{Key: p.Name, Val: sem(jx.O(jx.Member{Key: "!type", Val: jx.S(set.JSONName())}, jx.Member{Key: set.JSONName(), Val: val}), "exposed:"+string(p.Exposed.FullName()))})
 			continue
 		}
 		holder, f, has := get(msg, p.Path)
@@ -266,17 +266,17 @@ func (e *Encoder) encodeOneof(msg protoreflect.Message, ps []Prop) (*jx.Value, e
 			if err != nil {
 				return nil, err
 			}
-			return jx.O(jx.Member{Key: "!type", Val: jx.S(p.Name)}, jx.Member{Key: p.Name, Val: val}), nil
+			return sem(jx.O(jx.Member{Key: "!type", Val: jx.S(p.Name)}, jx.Member{Key: p.Name, Val: val}), "oneof:"+string(msg.Descriptor().FullName())), nil
 		}
 	}
-	return jx.O(), nil
+	return sem(jx.O(), "oneof:"+string(msg.Descriptor().FullName())), nil
 }
 
 func (e *Encoder) fieldValue(f protoreflect.FieldDescriptor, v protoreflect.Value) (*jx.Value, error) {
 	switch {
 	case f.IsList():
 		l := v.List()
-		out := jx.A()
+		out := sem(jx.A(), "array")
 		for i := 0; i < l.Len(); i++ {
 			it, err := e.value(f, l.Get(i))
 			if err != nil {
@@ -286,7 +286,7 @@ func (e *Encoder) fieldValue(f protoreflect.FieldDescriptor, v protoreflect.Valu
 		}
 		return out, nil
 	case f.IsMap():
-		out := jx.O()
+		out := sem(jx.O(), "map")
 		var keys []string
 		vals := map[string]protoreflect.Value{}
 		v.Map().Range(func(k protoreflect.MapKey, val protoreflect.Value) bool {
@@ -313,29 +313,29 @@ func sem(v *jx.Value, s string) *jx.Value { v.Sem = s; return v }
 func (e *Encoder) value(f protoreflect.FieldDescriptor, v protoreflect.Value) (*jx.Value, error) {
 	switch f.Kind() {
 	case protoreflect.StringKind:
-		return jx.S(v.String()), nil
+		return sem(jx.S(v.String()), "string"), nil
 	case protoreflect.BoolKind:
-		return jx.B(v.Bool()), nil
+		return sem(jx.B(v.Bool()), "bool"), nil
 	case protoreflect.Int32Kind, protoreflect.Sint32Kind, protoreflect.Sfixed32Kind:
-		return jx.N(strconv.FormatInt(v.Int(), 10)), nil
+		return sem(jx.N(strconv.FormatInt(v.Int(), 10)), "int32"), nil
 	case protoreflect.Uint32Kind, protoreflect.Fixed32Kind:
-		return jx.N(strconv.FormatUint(v.Uint(), 10)), nil
+		return sem(jx.N(strconv.FormatUint(v.Uint(), 10)), "uint32"), nil
 	case protoreflect.Int64Kind, protoreflect.Sint64Kind:
-		return jx.S(strconv.FormatInt(v.Int(), 10)), nil
+		return sem(jx.S(strconv.FormatInt(v.Int(), 10)), "int64"), nil
 	case protoreflect.Uint64Kind:
-		return jx.S(strconv.FormatUint(v.Uint(), 10)), nil
+		return sem(jx.S(strconv.FormatUint(v.Uint(), 10)), "uint64"), nil
 	case protoreflect.FloatKind:
 		return sem(jx.N(strconv.FormatFloat(v.Float(), 'g', -1, 32)), "f32"), nil
 	case protoreflect.DoubleKind:
 		return sem(jx.N(strconv.FormatFloat(v.Float(), 'g', -1, 64)), "f64"), nil
 	case protoreflect.BytesKind:
-		return jx.S(base64.StdEncoding.EncodeToString(v.Bytes())), nil
+		return sem(jx.S(base64.StdEncoding.EncodeToString(v.Bytes())), "bytes"), nil
 	case protoreflect.EnumKind:
 		name, ok := EnumShort(f.Enum(), v.Enum())
 		if !ok {
 			return nil, fmt.Errorf("undefined enum number %d", v.Enum())
 		}
-		return jx.S(name), nil
+		return sem(jx.S(name), "enum:"+string(f.Enum().FullName())), nil
 	case protoreflect.MessageKind:
 		m := v.Message()
 		md := f.Message()
@@ -348,7 +348,7 @@ func (e *Encoder) value(f protoreflect.FieldDescriptor, v protoreflect.Value) (*
 			y := m.Get(md.Fields().ByName("year")).Int()
 			mo := m.Get(md.Fields().ByName("month")).Int()
 			d := m.Get(md.Fields().ByName("day")).Int()
-			return jx.S(fmt.Sprintf("%04d-%02d-%02d", y, mo, d)), nil
+			return sem(jx.S(fmt.Sprintf("%04d-%02d-%02d", y, mo, d)), "date"), nil
 		case DecimalName:
 			return sem(jx.S(m.Get(md.Fields().ByName("value")).String()), "decimal"), nil
 		case J5AnyName, PbAnyName:
@@ -402,7 +402,7 @@ func (e *Encoder) any(m protoreflect.Message) (*jx.Value, error) {
 		}
 		inner = v
 	}
-	return jx.O(jx.Member{Key: "!type", Val: jx.S(typeName)}, jx.Member{Key: "value", Val: inner}), nil
+	return sem(jx.O(jx.Member{Key: "!type", Val: jx.S(typeName)}, jx.Member{Key: "value", Val: inner}), "any"), nil
 }
 
 var tsRe = regexp.MustCompile(`^\d{4}-\d{2}-\d{2}T\d{2}:\d{2}:\d{2}(\.\d+)?Z$`)
